@@ -51,11 +51,21 @@ def reuse_case(core, util, rng, tier):
             s_.i += 1
             return (s_.i - 1, s_.s[s_.i - 1])
     tk = core.StreamTokenizer(val, p["min"], p["max"], p["sil"], init_min=p["imin"], init_max_silence=p["isil"], mode=T.mode_of(p))
-    how = rng.choice(["complete", "complete", "drop", "keep", "late_close", "list", "callback"])
+    how = rng.choice(["complete", "complete", "drop", "keep", "late_close", "list", "callback", "upfront"])
     ev1 = []
     cur["ev"] = ev1
     gen1 = None
-    if how == "complete":
+    ev2 = []
+    gen2_early = None
+    if how == "upfront":
+        # both generators are requested before either is consumed; they are then consumed strictly one after the other
+        g1 = tk.tokenize(Src(s1, ev1), generator=True)
+        gen2_early = tk.tokenize(Src(s2, ev2), generator=True)
+        for _ in g1:
+            pass
+    if how == "upfront":
+        pass
+    elif how == "complete":
         for _ in tk.tokenize(Src(s1, ev1), generator=True):
             pass
     elif how == "list":
@@ -72,9 +82,8 @@ def reuse_case(core, util, rng, tier):
             gen1.close() if rng.random() < .5 else None
             gen1 = None
     # ---- the later run, recorded
-    ev2 = []
     cur["ev"] = ev2
-    gen2 = tk.tokenize(Src(s2, ev2), generator=True)
+    gen2 = gen2_early if gen2_early is not None else tk.tokenize(Src(s2, ev2), generator=True)
     close_at = rng.choice([1, 1, 2, 3])
     k = 0
     try:
